@@ -95,6 +95,9 @@ def same_source(ctx):
                            fact='the formatted value is the step operand itself', nontrivial=False,
                            why='the instruction text shows a modified operand', key='operand not verbatim')
     floor(ctx, 'verbatim operands in step instructions', n, 3)
+    # amounts printed by bake are computed from the state before / after this step, not from the declared objects
+    from .c08 import stale_state_reads
+    stale_state_reads(ctx, 'C19.R3')
 
 
 def _from_operands(e):
